@@ -14,8 +14,23 @@ rundemo(){ # $1 = label
     rm -rf "$wt/demo"; cp -r "$sd/demo" "$wt/demo"
     (cd "$wt/demo" && go mod edit -replace ergo.services/ergo="$wt/tree" && cp "$wt/tree/go.sum" . 2>/dev/null; ${LOCKCMD:-} timeout "$to" go run . > "$wt/out.$1" 2>&1; echo $? > "$wt/rc.$1")
   elif [ -f "$sd/demo_test.go" ]; then
-    pkg=$(python3 -c "import json;print(json.load(open('$sd/meta.json')).get('demo_pkg',''))")
+    pkg=$(python3 - "$sd/meta.json" <<'PY'
+import json,re,sys
+d=json.load(open(sys.argv[1])); demo=str(d.get('demo',''))
+if d.get('demo_pkg'): print(d['demo_pkg']); sys.exit()
+m=re.search(r'((?:testing/tests/\w+|act|node|lib|gen|app/\w+|meta|net/\w+))/zz_\w*\.go',demo) or re.search(r'\./((?:testing/tests/\w+|act|node|lib|gen|net/\w+))/?(?:\s|$|\)|;)',demo)
+print(m.group(1) if m else '')
+PY
+)
+    run=$(python3 - "$sd/meta.json" <<'PY'
+import json,re,sys
+d=json.load(open(sys.argv[1])); m=re.search(r'-run[ =]+[\'"]?([\w|^$.()]+)',str(d.get('demo','')))
+print(m.group(1) if m else '')
+PY
+)
+    [ -n "$run" ] && [ -z "${DEMO_RUN:-}" ] && DEMO_RUN="$run"
     [ -z "$pkg" ] && pkg=$(grep -o 'testing/tests/[0-9a-z_]*\|node\|act\|net/[a-z]*\|lib\|gen' "$sd/meta.json" | head -1)
+    echo "demo test: package $pkg, -run ${DEMO_RUN:-Demo|Seed}"
     cp "$sd/demo_test.go" "$wt/tree/$pkg/zz_demo_test.go"
     (cd "$wt/tree" && flock /tmp/ergo-test.lock timeout "$to" go test -vet=off -count=1 -run "${DEMO_RUN:-Demo|Seed}" "./$pkg/" > "$wt/out.$1" 2>&1; echo $? > "$wt/rc.$1")
     rm -f "$wt/tree/$pkg/zz_demo_test.go"
